@@ -7,6 +7,7 @@ toolchain go1.23.5
 require (
 	git.sr.ht/~rockorager/vaxis v0.0.0
 	github.com/containerd/console v1.0.3
+	github.com/mattn/go-sixel v0.0.5
 	github.com/rivo/uniseg v0.4.4
 	pgregory.net/rapid v1.3.0
 )
@@ -14,7 +15,6 @@ require (
 require (
 	github.com/creack/pty v1.1.18 // indirect
 	github.com/mattn/go-runewidth v0.0.14 // indirect
-	github.com/mattn/go-sixel v0.0.5 // indirect
 	github.com/soniakeys/quant v1.0.0 // indirect
 	golang.org/x/image v0.9.0 // indirect
 	golang.org/x/sys v0.10.0 // indirect
